@@ -41,7 +41,7 @@ Atoms(f) ==
       [] f = "asref_struct"  -> {"forward", "ty_a", "ty_b", "ty_ab", "ty_ab_comma"}
       [] f = "asref_field"   -> {"bare", "skip", "ignore", "forward", "ty_a", "ty_b", "ty_ab"}
       [] f = "into_struct"   -> {"bare", "owned", "ref", "ref_mut", "owned_ref", "ref_refmut", "all3", "all3_comma", "ty_a", "ty_b", "ty_ab", "unknown_form",
-                                 "legacy_types", "mixed_forms", "forms_nocomma"}
+                                 "legacy_types", "mixed_forms", "forms_nocomma", "groups_trailing", "group_trailing_outer", "group_then_bare"}
       [] f = "into_field"    -> {"skip", "ignore"}
       [] f = "legacy_field"  -> {"sel", "ignore", "forward", "unknown", "eq_value", "name_value", "lit_param", "not_foreign", "not_unneg", "dup_flag", "contra_flag", "contra_flag_rev", "dup_not"}
       [] f = "legacy_forms"  -> {"owned", "ref", "ref_mut", "owned_ref", "all3", "unknown", "list_param", "name_value", "not_foreign", "not_unneg", "dup_flag"}
@@ -75,6 +75,7 @@ Kind(f, a) ==
       [] a \in {"from", "bare"} -> "empty"       \* `#[into]` / `#[from]` / `#[as_ref]` without arguments
       [] a = "forward" -> (IF f = "legacy_field" THEN "legacy" ELSE "forward")
       [] a \in {"ty_a", "ty_b", "ty_ab", "ty_ab_comma"} -> (IF f = "into_struct" THEN "conv" ELSE "types")
+      [] a \in {"groups_trailing", "group_trailing_outer", "group_then_bare"} -> "conv"
       [] a \in {"owned", "ref", "ref_mut", "owned_ref", "ref_refmut", "all3", "all3_comma"} ->
             (IF f = "into_struct" THEN "conv" ELSE "legacy")
       [] a \in {"sel", "source", "not_source", "backtrace", "source_backtrace"} -> "legacy"
@@ -92,6 +93,9 @@ Contrib(f, a) ==
       [] a = "ty_a" -> (IF f = "into_struct" THEN {"owned:a"} ELSE {"ty:a"})
       [] a = "ty_b" -> (IF f = "into_struct" THEN {"owned:b"} ELSE {"ty:b"})
       [] a \in {"ty_ab", "ty_ab_comma"} -> (IF f = "into_struct" THEN {"owned:a", "owned:b"} ELSE {"ty:a", "ty:b"})
+      \* typed groups with a comma INSIDE the group and after it (`owned(i64,), ref(i32,)`; `ref(i32,),`), a group followed by the bare word
+      [] a = "groups_trailing" -> {"owned:a", "ref:c"} [] a = "group_trailing_outer" -> {"ref:c"}
+      [] a = "group_then_bare" -> {"owned:a", "owned:self", "ref:c"}
       [] a = "owned" -> {"owned:self"} [] a = "ref" -> {"ref:self"} [] a = "ref_mut" -> {"ref_mut:self"}
       [] a = "owned_ref" -> {"owned:self", "ref:self"} [] a = "ref_refmut" -> {"ref:self", "ref_mut:self"}
       [] a \in {"all3", "all3_comma"} -> {"owned:self", "ref:self", "ref_mut:self"}
